@@ -204,7 +204,7 @@ def type_matches(T, v):
         if T == 'opaque':
             return isinstance(v, (Opaque, SDict))
         if T == 'optdict':
-            return isinstance(v, Opaque) and getattr(v, 'cell', None) is not None
+            return isinstance(v, Opaque) and (getattr(v, 'cell', None) is not None or hasattr(v, 'arr'))
         if T == 'sigrow':
             return isinstance(v, Opaque)
         if T == STR:
@@ -628,7 +628,13 @@ def np_zeros(E, args, node):
     shape = args.get(0, 'shape')
     dtype = args.get(1, 'dtype', None)
     if isinstance(shape, tuple):
-        raise Unsupported('np.zeros N-d')
+        from . import grid
+        dims = [simp_int(x) for x in shape]
+        for d in dims:
+            E.oblige('lib-pre', d >= 0, node, 'non-negative extent')
+        g = grid.zeros_grid(E, dims)
+        g.kind = 'ndarray'
+        return g
     n = term_int(shape)
     if not E.spec_mode:
         E.oblige('lib-pre', n >= 0, node, 'non-negative length')
@@ -825,7 +831,16 @@ def arr_astype(E, a, args, node):
 
 @method('Arr.tolist')
 def arr_tolist(E, a, args, node):
+    from . import grid
+    if grid.is_grid(a):
+        clo = E.st.heap[a.ident]
+        return grid.grid(E, a.shape, a.lead, clo, 'list')        # fresh nested lists (distinct rows)
     return E.snapshot(a, kind='list')
+
+
+def simp_int(x):
+    t = term_int(x)
+    return z3.simplify(t)
 
 
 @libfn('copy.deepcopy')
